@@ -231,7 +231,7 @@ def _run(tier, seed, shard, rep_box):
     # connected frames around ties: a state on k wires, two or three small boxes in the middle (units, counits,
     # endomorphisms at every offset), an effect on the remaining wires -- the smallest connected diagrams in which
     # both interchange directions are legal for a pair of adjacent boxes
-    Ty, Box = monoidal.Ty, monoidal.Box
+    Ty, Box, Id = monoidal.Ty, monoidal.Box, monoidal.Id
     mids = [Box('counit', x, Ty()), Box('unit', Ty(), x), Box('f', x, x), Box('copy', x, x @ x), Box('merge', x @ x, x)]
     n_mid = 2 if tier == 'quick' else 3
     idx = 0
@@ -245,6 +245,14 @@ def _run(tier, seed, shard, rep_box):
                 continue
             b = Box('b', d.cod, Ty())
             check(rep, a >> d >> b)
+    # connected diagrams handed over as the direct result of a dagger or of a slice (their box lists are built by another
+    # route than those of >> and @)
+    if shard[0] == 3 % shard[1]:
+        a2, b2 = Box('a', Ty(), x ** 2), Box('b', x ** 2, Ty())
+        base = a2 >> Box('f', x, x) @ Box('unit', Ty(), x) @ Box('f', x, x) >> Box('copy', x, x @ x) @ Box('merge', x @ x, x) \
+            >> Box('merge', x @ x, x) @ Id(x) >> b2
+        for d in (base[::-1], base.dagger(), base[1:], base[:-1], base[::-1][1:], (base >> base[::-1])[2:9], base[4:1:-1]):
+            check(rep, d)
     # long connected diagrams (spirals and their mirror images): the number of interchanges grows cubically with the number of
     # boxes (4, 20, 56, 120, 220 moves for 1..5 cups), far beyond what the enumerated diagrams need
     if shard[0] == 2 % shard[1]:
